@@ -55,7 +55,7 @@ impl Property for C18 {
     }
     fn cases(&self, tier: Tier) -> u64 {
         match tier {
-            Tier::Quick => 40000,
+            Tier::Quick => 60_000,
             Tier::Thorough => 1000000,
         }
     }
